@@ -76,13 +76,25 @@ def miri_warm(pkg, bin_, log):
 
 
 def build_all(tier, log):
+    """MANIFEST.setup_cmd: build every monitor (native release, Miri artefacts, C14 rlibs)."""
     ok, msg = cargo_build(["rig_r5", "rig_r9", "rig_misc", "ctor", "schedprogs"], log)
+    if not ok:
+        return ok, msg
+    ok, msg = cargo_build(["c14base"], log, release=False)
     if not ok:
         return ok, msg
     for pkg, b in (("rig_r5", "r5"), ("rig_r9", "r9"), ("rig_misc", "r1")):
         ok, msg = miri_warm(pkg, b, log)
         if not ok:
             return ok, msg
+    # Miri artefacts of the C14 runner's dependencies (brood, rayon)
+    env = base_env()
+    env["MIRIFLAGS"] = MIRIFLAGS
+    env["CARGO_TARGET_DIR"] = MIRI_TARGET
+    p = subprocess.run(["cargo", "+nightly", "miri", "run", "--offline", "-q"] + CARGO_CONFIG + ["-p", "c14run"], cwd=ROOT, env=env, stdout=subprocess.PIPE, stderr=subprocess.PIPE)
+    log(f"[build] miri c14run -> rc={p.returncode}")
+    if p.returncode != 0:
+        return False, p.stderr.decode("utf-8", "replace")[-400:]
     return True, "built"
 
 
